@@ -69,6 +69,12 @@ MODELS = [
         M(x=I(1)), Q(S('a')), ('s', 'tag:yaml.org,2002:null', 'null')]),
     ('top_any', Any, [], [M(k=Q(I(1), M(x=S('s'))))]),
     ('top_opt_date', Optional[datetime.date], [], [TS('2001-12-14')]),
+    ('order', Z.Order, [Z.Order, Z.Item], [
+        M(('customer-name', S('x')),
+          ('items', M(i1=F(1.5), i2=M(price=F(2.5), description=S('d')))),
+          ('note', S('n')), ('extra-1', Q(I(1)))),
+        M(customer_name=S('x'), items=Q(M(item_id=S('i'), price=F(1.0)))),
+    ]),
     # ---- C04: a registered class (Trap) that no typed position admits
     ('trap_loose', Z.Loose2, [Z.Loose2, Z.Sub, Z.Trap], [
         M(a=M(x=I(1)), b=M(x=I(2)), s=M(x=I(3)), l=Q(M(x=I(4))),
@@ -83,7 +89,9 @@ MODELS = [
         M(s=M(x=I(1)), ss=Q(M(x=I(2))), u=M(x=I(3))),
     ]),
 ]
-CORE = {m[0] for m in MODELS if not m[0].startswith('trap_')}
+CORE = {m[0] for m in MODELS if not m[0].startswith('trap_')
+        and m[0] != 'order'}
+GROUP_C02 = (CORE - {'perm'}) | {'order'}
 GROUP_C04 = {'trap_loose', 'trap_any', 'trap_dict', 'trap_typed', 'loose',
              'top_any'}
 MODEL_IDX = {m[0]: i for i, m in enumerate(MODELS)}
@@ -222,6 +230,9 @@ def _slices(pred):
 
 ALL_SLICES = _slices(lambda mi, bi, n: MODELS[mi][0] in CORE)
 QUICK_SLICES = _slices(lambda mi, bi, n: bi == 0 and MODELS[mi][0] in CORE)
+C02_SLICES = _slices(lambda mi, bi, n: MODELS[mi][0] in GROUP_C02)
+C02_QUICK_SLICES = _slices(
+    lambda mi, bi, n: MODELS[mi][0] in GROUP_C02 and bi == 0)
 C04_SLICES = _slices(lambda mi, bi, n: MODELS[mi][0] in GROUP_C04)
 C04_QUICK_SLICES = _slices(
     lambda mi, bi, n: MODELS[mi][0] in GROUP_C04 and (
@@ -317,7 +328,7 @@ def run_load(mi: int, tree):
 
 
 def explore(sl: int, site: int, mut: int, rsel: int, tag: str, vsel: int,
-            ksel: int, lim, check):
+            ksel: int, lim, check, before=None):
     """One solver-chosen single-point mutant of the base document selected by
     slice `sl`, loaded through the public API; `check(mi, outcome, value,
     built)` is the property's assertion.  Returns None when the selectors do
@@ -333,6 +344,9 @@ def explore(sl: int, site: int, mut: int, rsel: int, tag: str, vsel: int,
     b = mutated(mi, bi, site, mut, rsel, tag, vsel, ksel, lim)
     if b is None:
         return None
+    if before is not None:
+        # evaluated on the document BEFORE the load rewrites it in place
+        b.pre = before(mi, b)
     outcome, val = run_load(mi, b.root)
     note(model=MODELS[mi][0], base=bi, site=site, mutation=mut)
     return outcome, check(mi, outcome, val, b)
